@@ -5,9 +5,10 @@ var c12Width = map[string]int{"FLOAT": 4, "DOUBLE": 8, "INT8": 1, "INT16": 2, "I
 
 func c12Jobs(o Options) []Job {
 	var jobs []Job
-	dimsSets := [][]int{{}, {2}, {2, 2}, {1, 3}, {-1}, {-2}, {-1, -2}, {-2, -2}, {2, -1}}
+	// {0}, {2, 0}, {0, 3}: weights without elements (an empty Resize roi, an empty axes list) have an empty payload and are valid
+	dimsSets := [][]int{{}, {2}, {2, 2}, {1, 3}, {0}, {2, 0}, {0, 3}, {-1}, {-2}, {-1, -2}, {-2, -2}, {2, -1}}
 	if o.Tier == "thorough" {
-		dimsSets = [][]int{{}, {1}, {2}, {3}, {4}, {2, 2}, {1, 3}, {3, 1}, {2, 1, 2}, {1, 1, 1, 1}, {1, 2, 1, 2}, {-1}, {2, -1}, {-2, -2}}
+		dimsSets = [][]int{{}, {1}, {2}, {3}, {4}, {2, 2}, {1, 3}, {3, 1}, {2, 1, 2}, {1, 1, 1, 1}, {1, 2, 1, 2}, {0}, {2, 0}, {0, 3}, {1, 0, 2}, {-1}, {2, -1}, {-2, -2}}
 	}
 	for _, dt := range c12Types {
 		w := c12Width[dt]
